@@ -50,7 +50,7 @@ func (r *runner) objectChecks(sents []*sent) {
 		case *types.Transaction:
 			if t2, err := t.WithSignature(types.GlobalSTDSigner, sig[:]); err == nil {
 				if f, err := t2.From(); err != nil || addr20(f) != other.a20 {
-					r.violate("sender-cache", "sender-cache/object-keeps-old-sender/Transaction.WithSignature",
+					r.violate("sender-cache", "sender-cache/object-keeps-old-sender",
 						"Transaction.WithSignature(signature of %x) after From() had been called: From() of the new object is %x (err=%v), the previous signer", other.a20[:], f[:], err)
 				}
 			}
@@ -59,14 +59,14 @@ func (r *runner) objectChecks(sents []*sent) {
 			}
 			if err := t.Sign(types.GlobalSTDSigner, other.priv); err == nil {
 				if f, err := t.From(); err != nil || addr20(f) != other.a20 {
-					r.violate("sender-cache", "sender-cache/object-keeps-old-sender/Transaction.Sign",
+					r.violate("sender-cache", "sender-cache/object-keeps-old-sender",
 						"Transaction.Sign(key of %x) after From() had been called: From() still says %x (err=%v)", other.a20[:], f[:], err)
 				}
 			}
 		case *types.TokenTransaction:
 			if err := t.Sign(types.GlobalSTDSigner, other.priv); err == nil {
 				if f, err := t.From(); err != nil || addr20(f) != other.a20 {
-					r.violate("sender-cache", "sender-cache/object-keeps-old-sender/TokenTransaction.Sign",
+					r.violate("sender-cache", "sender-cache/object-keeps-old-sender",
 						"TokenTransaction.Sign(key of %x) after From() had been called: From() still says %x (err=%v)", other.a20[:], f[:], err)
 				}
 			}
